@@ -306,13 +306,23 @@ def source_modules(args):
     def error(os_error):
         raise os_error
 
+    # A file can be reached more than once, through symlinks or overlapping arguments. It must only be minified once.
+    seen = set()
+
+    def first_visit(path):
+        real_path = os.path.realpath(path)
+        if real_path in seen:
+            return False
+        seen.add(real_path)
+        return True
+
     for path_arg in args.path:
         if os.path.isdir(path_arg):
             for root, _dirs, files in os.walk(path_arg, onerror=error, followlinks=True):
                 for file in files:
-                    if file.endswith(('.py', '.pyw')):
+                    if file.endswith(('.py', '.pyw')) and first_visit(os.path.join(root, file)):
                         yield os.path.join(root, file)
-        else:
+        elif first_visit(path_arg):
             yield path_arg
 
 
